@@ -132,6 +132,14 @@ type World struct {
 
 	// epoch bookkeeping for the verifier cache (see advance)
 	epochStart time.Time
+
+	cnt       counters
+	extends   int
+	extendsOK int
+	selects   int
+	// validAt[as index][signed content] = the beacon was received by that AS with every
+	// condition of the storing rule true
+	validAt map[int]map[[32]byte]bool
 }
 
 var worldCounter atomic.Uint64
